@@ -96,6 +96,11 @@ func (m *pairModel) Apply(ev string) {
 	if m.cfg.Dev > 0 && ev != m.defaultEvent() {
 		m.devs++
 	}
+	defer func() {
+		if m.cfg.Monitor {
+			m.checkSelections()
+		}
+	}()
 	if m.applyBasic(ev) {
 		return
 	}
@@ -113,6 +118,7 @@ func (pw *pairWorld) restart(i int) {
 	s, peer := pw.side[i], pw.side[1-i]
 	s.restarts++
 	s.gen++
+	pw.ledgers[i].reset()
 	s.ufrag = fmt.Sprintf("%sg%d", s.ufrag[:9], s.gen)
 	s.pwd = fmt.Sprintf("%sg%d", s.pwd[:28-4], s.gen)
 	if err := s.agent.Restart(s.ufrag, s.pwd); err != nil {
@@ -141,7 +147,12 @@ func (pw *pairWorld) restart(i int) {
 func (m *pairModel) Key() (string, []int) {
 	spent := []int{m.side[0].ticks, m.side[1].ticks, m.drops, m.dups, m.devs, m.side[0].restarts, m.side[1].restarts}
 
-	return m.canon() + fmt.Sprintf(" gen=%d/%d", m.side[0].gen, m.side[1].gen), spent
+	k := m.canon() + fmt.Sprintf(" gen=%d/%d", m.side[0].gen, m.side[1].gen)
+	if m.cfg.Monitor {
+		k += " ledger=" + m.ledgers[0].summary() + "/" + m.ledgers[1].summary()
+	}
+
+	return k, spent
 }
 
 func connectedSeen(states []ConnectionState) bool {
@@ -204,6 +215,8 @@ func (m *pairModel) Finish() []vtProblem {
 		switch {
 		case sa == nil || sb == nil || ca != ConnectionStateConnected || cb != ConnectionStateConnected:
 			m.problem("", "not converged after the fair suffix: A state=%s selected=%v; B state=%s selected=%v", ca, sa, cb, sb)
+		case m.side[0].agent.isControlling.Load() == m.side[1].agent.isControlling.Load():
+			m.problem("", "both agents ended in the same role (controlling=%v)", m.side[0].agent.isControlling.Load())
 		case m.localWire(sa.Local) != sb.Remote.addr().String() || m.localWire(sb.Local) != sa.Remote.addr().String():
 			m.problem("", "selected pairs are not mirror images: A %s(wire %s)>%s, B %s(wire %s)>%s", sa.Local.addr(), m.localWire(sa.Local), sa.Remote.addr(),
 				sb.Local.addr(), m.localWire(sb.Local), sb.Remote.addr())
